@@ -538,6 +538,15 @@ class Gen:
         c = self.sub_ctx(ctx, True, n)
         self.feat.add('while')
         lines = ['%s\tset\t%d' % (w, start), '\t%s\t%s<%s' % (self.kw('while'), self.rc(w), lim)]
+        if rng.random() < 0.3:
+            # "assembled until the expression becomes logically false": any value other than 0 is true, negative ones included
+            # (a counter that runs up to zero, or the distance to a limit as the condition)
+            m = rng.randrange(1, 5)
+            if rng.random() < 0.5:
+                lines = ['%s\tset\t0-%d' % (w, m), '\t%s\t%s' % (self.kw('while'), self.rc(w))]
+            else:
+                lines = ['%s\tset\t%d' % (w, start), '\t%s\t%s-%d' % (self.kw('while'), self.rc(w), start + m)]
+            self.feat.add('while-arith')
         b = self.body(depth, params, visible, c)
         b.insert(0, self.byte_stmt([self.rc(w)]))
         if rng.random() < 0.15:
